@@ -365,6 +365,15 @@ def final_violations(net):
     for k in range(net.n):
         c, h = net.finished(k)
         fin |= set(c) | set(h)
+    # C05 seen from the network: no instance reports a run completed twice (one complex event per run and instance)
+    for k, nd in enumerate(net.nodes):
+        seen = {}
+        for r, _loc in nd.log["completed"]:
+            seen[r.run_id] = seen.get(r.run_id, 0) + 1
+        for rid, c in seen.items():
+            if c > 1:
+                out.append(("run-reported-completed-twice", "instance %d reported run %s completed %d times (one complex event each)"
+                            % (k, rid, c)))
     for k in range(net.n):
         for rid, idx in tabs[k]:
             if rid in fin:
@@ -437,6 +446,16 @@ def oracle_scenarios(ctx):
                                                    ["outinj", 0, pt, dst, 2]]))
                 sc.append(dict(pat=pat, n=3, acts=[["in", 0, 1], ["out", 0], ["upd", 1], ["upd", 2], ["in", 0, 2],
                                                    ["link", 0, 1, "fail"], ["outinj", 0, pt, dst, 3], ["clock", 5]]))
+    # a run that starts, advances and completes while the link to a peer keeps failing: the backlog holds several
+    # notes incl. the completion and is retried several times before it gets through
+    for n in (2, 3):
+        for fault in ("down", "fail"):
+            for retries in (1, 2, 3):
+                acts = [["link", 0, 1, fault], ["in", 0, 1], ["out", 0], ["in", 0, 2], ["out", 0], ["in", 0, 3], ["out", 0]]
+                for _ in range(retries):
+                    acts += [["clock", 6], ["out", 0]]
+                sc.append(dict(pat="abc", n=n, acts=acts))
+                sc.append(dict(pat="two", n=n, acts=acts + [["in", 0, 4], ["out", 0], ["clock", 6], ["out", 0]]))
     # bounded-exhaustive, 2 instances
     alpha = [["in", 0, 1], ["in", 0, 2], ["in", 1, 2], ["in", 1, 3], ["out", 0], ["out", 1], ["upd", 0], ["upd", 1],
              ["link", 0, 1, "down"], ["link", 0, 1, "fail"], ["link", 1, 0, "down"], ["link", 0, 1, "up"],
